@@ -418,6 +418,34 @@ func checkC08(w *SketchWorld, slot int) (fails []mc.Fail) {
 				}
 				_ = ci
 			}
+			if sl.Exact {
+				// the plain decoder reading (and ignoring) the statistics blocks of this
+				// truncated exact-variant encoding
+				dec, err := ddsketch.DecodeDDSketch(prefix, consumers[0].Provider(), supplied(md, omit))
+				mc.Count("truncations", 1)
+				c := model.ContentOf(blocks[:nb])
+				switch {
+				case !onBoundary && err == nil:
+					fail("C08.no-silent-truncation", "the encoding % x cut at byte %d (inside a block) was decoded by the plain decoder without error", enc, t)
+					return
+				case onBoundary && (omit || c.HasMapping) && err != nil:
+					fail("C08.boundary-cut", "the encoding % x cut at byte %d (between blocks) was refused by the plain decoder: %v", enc, t, err)
+					return
+				case onBoundary && (omit || c.HasMapping):
+					exp := NewSkModel(consumers[0], md.Spec, md.Map)
+					for _, k := range sortedKeys(c.Pos) {
+						exp.Pos.Add(k, c.Pos[k])
+					}
+					for _, k := range sortedKeys(c.Neg) {
+						exp.Neg.Add(k, c.Neg[k])
+					}
+					exp.Zero = c.Zero
+					if got, want := SketchContent(dec), exp.Content(); got != want {
+						fail("C08.no-silent-truncation", "the encoding % x cut at byte %d decoded by the plain decoder to content that differs from its complete blocks\n  got:  %s\n  want: %s", enc, t, got, want)
+						return
+					}
+				}
+			}
 			// into a non-empty receiver: a cut inside a block must still be an error
 			if !onBoundary && len(w.S) > 1 && !w.M[1-slot].Approx && w.M[1-slot].Spec == md.Spec {
 				r := rebuild(w.M[1-slot], consumers[0], sl.Exact)
